@@ -291,6 +291,31 @@ func runMapShardsAccounting(c *core.Ctx) {
 				}
 			}
 			c.Check("shard-from-ShardFor", fmt.Sprintf("%s/MapPoint#%d", f.Name, i+1), c.P.Pos(e.Pos()), good, "the shard passed to MapPoint must be the result of sg.ShardFor(p)")
+			// MapPoint keeps the pointer (ShardMapping.Shards[id] = shardInfo): it must point at storage that is this
+			// point's own, i.e. a variable declared inside the innermost loop around the call, not one that the next
+			// iteration overwrites
+			if u, ok := ast.Unparen(e.Call.Args[0]).(*ast.UnaryExpr); ok && u.Op == token.AND {
+				if id, ok := ast.Unparen(u.X).(*ast.Ident); ok {
+					obj := f.Info().ObjectOf(id)
+					var inner ast.Node
+					ast.Inspect(f.Body, func(nd ast.Node) bool {
+						switch l := nd.(type) {
+						case *ast.RangeStmt:
+							if l.Body.Pos() <= e.Pos() && e.Pos() < l.Body.End() {
+								inner = l.Body
+							}
+						case *ast.ForStmt:
+							if l.Body.Pos() <= e.Pos() && e.Pos() < l.Body.End() {
+								inner = l.Body
+							}
+						}
+						return true
+					})
+					fresh := inner == nil || (obj != nil && inner.Pos() <= obj.Pos() && obj.Pos() < inner.End())
+					c.Check("mapped-shard-is-the-points-own", fmt.Sprintf("%s/MapPoint#%d", f.Name, i+1), c.P.Pos(e.Pos()), fresh,
+						"MapPoint stores the pointer it is given; the variable whose address is passed is declared outside the loop over the points, so every entry of ShardMapping.Shards ends up pointing at the last point's shard and whole batches are delivered to one shard")
+				}
+			}
 		}
 		// resolution loop: guard-skip, or Add, or fail
 		add := calleeIn(rf, coord+".(*sgList).Add")
